@@ -74,6 +74,27 @@ fn scan_links(doc: &str) -> Result<(), String> {
     Ok(())
 }
 
+/// sink that fails at write call `k` (and, if `persistent`, at every later call)
+struct FailingSink { calls: usize, k: usize, persistent: bool, failed_at: Option<usize>, written_after_failure: bool, text: String }
+impl std::fmt::Write for FailingSink {
+    fn write_str(&mut self, s: &str) -> std::fmt::Result {
+        let i = self.calls; self.calls += 1;
+        if self.failed_at.is_some() { self.written_after_failure = true; }
+        if i == self.k || (self.persistent && i > self.k) { if self.failed_at.is_none() { self.failed_at = Some(i); } return Err(std::fmt::Error); }
+        self.text.push_str(s); Ok(())
+    }
+}
+
+fn write_doc(sink: &mut dyn std::fmt::Write, newlines: bool) -> std::fmt::Result {
+    use coap_lite::link_format::LinkFormatWrite;
+    let mut w = LinkFormatWrite::new(sink);
+    w.set_add_newlines(newlines);
+    let _ = w.link("/a").attr("rt", "x").attr_quoted("if", "s\"q\\").attr_u32("sz", 7).finish();
+    let _ = w.link("/b").attr_u16("ct", 40).finish();
+    let _ = w.link("/c").finish();
+    w.finish()
+}
+
 fn ref_path_segments(p: &str) -> Vec<String> {
     let mut v: Vec<String> = p.split('/').map(|s| s.to_string()).collect();
     if v[0].is_empty() { v.remove(0); }
@@ -121,6 +142,22 @@ fn main() {
         for n in 0..=65535u16 {
             if u16::from(CoapOption::from(n)) != n { found("option-number-identity", format!("{}", n)); }
             if let Ok(cf) = ContentFormat::try_from(n as usize) { if usize::from(cf) != n as usize { found("content-format-identity", format!("{}", n)); } }
+        }
+    }
+    if which == "all" || which == "C18" {
+        for newlines in [false, true] {
+            let mut clean = String::new();
+            if write_doc(&mut clean, newlines).is_err() { found("writer-error-without-failure", format!("newlines={}", newlines)); }
+            let mut probe = FailingSink { calls: 0, k: usize::MAX, persistent: false, failed_at: None, written_after_failure: false, text: String::new() };
+            let _ = write_doc(&mut probe, newlines);
+            for k in 0..probe.calls { for persistent in [false, true] {
+                let mut sink = FailingSink { calls: 0, k, persistent, failed_at: None, written_after_failure: false, text: String::new() };
+                let r = write_doc(&mut sink, newlines);
+                let ctx = format!("newlines={} failing write call k={} persistent={}", newlines, k, persistent);
+                if r.is_ok() { found("sink-failure-not-reported", ctx.clone()); }
+                if sink.written_after_failure { found("write-after-failed-write", ctx.clone()); }
+                if !clean.starts_with(&sink.text) { found("sink-text-not-a-prefix", format!("{}: {:?}", ctx, sink.text)); }
+            } }
         }
     }
     if which == "all" || which == "C19" {
